@@ -48,8 +48,13 @@ fn scan_prefix(hb: &[u8], signed: bool) -> (usize, usize) {
 
 /// prefix parsing through `Parser::new(h)`; returns (consumed length, std's value of the prefix)
 fn check_prefix<T: KInt, S: Src>(s: &mut S, h: &str) -> (usize, Option<T>) {
+    let (n, digits) = scan_prefix(h.as_bytes(), T::SIGNED);
+    check_prefix_at::<T, S>(s, h, n, digits)
+}
+
+/// the same with the extent of "optional '-' + longest digit run" (`n` bytes, `digits` of them digits) given
+fn check_prefix_at<T: KInt, S: Src>(s: &mut S, h: &str, n: usize, digits: usize) -> (usize, Option<T>) {
     let hb = h.as_bytes();
-    let (n, digits) = scan_prefix(hb, T::SIGNED);
     let expect: Option<T> = if digits == 0 { None } else { ascii_str(&hb[..n]).parse::<T>().ok() };
     match T::prefix(Parser::new(h)) {
         Ok((v, p)) => {
@@ -292,14 +297,21 @@ fn near<T: KInt, const CAP: usize, S: Src>(s: &mut S, m: &[u8], d: usize) -> (us
     }
 }
 
-/// prefix parsing of a neighbourhood string (sign none or '-', no extra digit) continued by one symbolic ASCII byte
+/// prefix parsing of a neighbourhood string (sign none or '-', no extra digit) continued by one symbolic
+/// non-digit ASCII byte, so the extent of the number is known by construction
 fn near_prefix<T: KInt, const CAP: usize, S: Src>(s: &mut S, m: &[u8], d: usize) -> (usize, Option<T>) {
     if s.bool() {
         let (buf, n) = near_str::<CAP, S>(s, 1, 0, m, d);
-        check_prefix::<T, _>(s, ascii_str(&buf[..n + 1]))
+        s.assume(!is_digit(buf[n]));
+        if T::SIGNED {
+            check_prefix_at::<T, _>(s, ascii_str(&buf[..n + 1]), n, n - 1)
+        } else {
+            check_prefix_at::<T, _>(s, ascii_str(&buf[..n + 1]), 0, 0)
+        }
     } else {
         let (buf, n) = near_str::<CAP, S>(s, 0, 0, m, d);
-        check_prefix::<T, _>(s, ascii_str(&buf[..n + 1]))
+        s.assume(!is_digit(buf[n]));
+        check_prefix_at::<T, _>(s, ascii_str(&buf[..n + 1]), n, n)
     }
 }
 
@@ -640,26 +652,24 @@ harness! {
 }
 
 harness! {
-    /// kind=bounded tier=quick bound="u32 prefix parsing: sign none or '-', the first 7 digits of u32::MAX, 3 symbolic digits, then one symbolic ASCII byte"
+    /// kind=bounded tier=quick bound="u32 prefix parsing: sign none or '-', the first 7 digits of u32::MAX, 3 symbolic digits, then one symbolic non-digit ASCII byte"
     #[kani::unwind(16)]
     #[kani::stub(konst_kernel::string::non_char_boundary_panic, crate::hlib::stub_non_char_boundary_panic)]
     fn c12_prefix_near_u32(s) {
         let (n, e) = near_prefix::<u32, 14, _>(s, b"4294967295", 3);
         cov!(s, n == 10 && e == Some(u32::MAX), "C12.cover.prefix_u32_max_then_byte");
-        cov!(s, n == 11 && e.is_none(), "C12.cover.prefix_u32_tail_digit_overflows");
         cov!(s, n == 10 && e.is_none(), "C12.cover.prefix_u32_overflow");
         cov!(s, n == 0, "C12.cover.prefix_u32_minus_rejected");
     }
 }
 
 harness! {
-    /// kind=bounded tier=quick bound="i32 prefix parsing: sign none or '-', the first 7 digits of i32::MAX, 3 symbolic digits, then one symbolic ASCII byte"
+    /// kind=bounded tier=quick bound="i32 prefix parsing: sign none or '-', the first 7 digits of i32::MAX, 3 symbolic digits, then one symbolic non-digit ASCII byte"
     #[kani::unwind(16)]
     #[kani::stub(konst_kernel::string::non_char_boundary_panic, crate::hlib::stub_non_char_boundary_panic)]
     fn c12_prefix_near_i32(s) {
         let (n, e) = near_prefix::<i32, 14, _>(s, b"2147483647", 3);
         cov!(s, n == 10 && e == Some(i32::MAX), "C12.cover.prefix_i32_max_then_byte");
-        cov!(s, n == 11 && e.is_none(), "C12.cover.prefix_i32_tail_digit_overflows");
         cov!(s, n == 10 && e.is_none(), "C12.cover.prefix_i32_overflow");
         cov!(s, n == 11 && e == Some(i32::MIN), "C12.cover.prefix_i32_min_then_byte");
         cov!(s, n == 11 && e.is_none(), "C12.cover.prefix_i32_below_min");
@@ -667,26 +677,24 @@ harness! {
 }
 
 harness! {
-    /// kind=bounded tier=quick bound="u64 prefix parsing: sign none or '-', the first 17 digits of u64::MAX, 3 symbolic digits, then one symbolic ASCII byte"
+    /// kind=bounded tier=quick bound="u64 prefix parsing: sign none or '-', the first 17 digits of u64::MAX, 3 symbolic digits, then one symbolic non-digit ASCII byte"
     #[kani::unwind(26)]
     #[kani::stub(konst_kernel::string::non_char_boundary_panic, crate::hlib::stub_non_char_boundary_panic)]
     fn c12_prefix_near_u64(s) {
         let (n, e) = near_prefix::<u64, 24, _>(s, b"18446744073709551615", 3);
         cov!(s, n == 20 && e == Some(u64::MAX), "C12.cover.prefix_u64_max_then_byte");
-        cov!(s, n == 21 && e.is_none(), "C12.cover.prefix_u64_tail_digit_overflows");
         cov!(s, n == 20 && e.is_none(), "C12.cover.prefix_u64_overflow");
         cov!(s, n == 0, "C12.cover.prefix_u64_minus_rejected");
     }
 }
 
 harness! {
-    /// kind=bounded tier=quick bound="i64 prefix parsing: sign none or '-', the first 16 digits of i64::MAX, 3 symbolic digits, then one symbolic ASCII byte"
+    /// kind=bounded tier=quick bound="i64 prefix parsing: sign none or '-', the first 16 digits of i64::MAX, 3 symbolic digits, then one symbolic non-digit ASCII byte"
     #[kani::unwind(25)]
     #[kani::stub(konst_kernel::string::non_char_boundary_panic, crate::hlib::stub_non_char_boundary_panic)]
     fn c12_prefix_near_i64(s) {
         let (n, e) = near_prefix::<i64, 23, _>(s, b"9223372036854775807", 3);
         cov!(s, n == 19 && e == Some(i64::MAX), "C12.cover.prefix_i64_max_then_byte");
-        cov!(s, n == 20 && e.is_none(), "C12.cover.prefix_i64_tail_digit_overflows");
         cov!(s, n == 19 && e.is_none(), "C12.cover.prefix_i64_overflow");
         cov!(s, n == 20 && e == Some(i64::MIN), "C12.cover.prefix_i64_min_then_byte");
         cov!(s, n == 20 && e.is_none(), "C12.cover.prefix_i64_below_min");
@@ -694,26 +702,24 @@ harness! {
 }
 
 harness! {
-    /// kind=bounded tier=quick bound="u128 prefix parsing: sign none or '-', the first 36 digits of u128::MAX, 3 symbolic digits, then one symbolic ASCII byte"
+    /// kind=bounded tier=quick bound="u128 prefix parsing: sign none or '-', the first 36 digits of u128::MAX, 3 symbolic digits, then one symbolic non-digit ASCII byte"
     #[kani::unwind(45)]
     #[kani::stub(konst_kernel::string::non_char_boundary_panic, crate::hlib::stub_non_char_boundary_panic)]
     fn c12_prefix_near_u128(s) {
         let (n, e) = near_prefix::<u128, 43, _>(s, b"340282366920938463463374607431768211455", 3);
         cov!(s, n == 39 && e == Some(u128::MAX), "C12.cover.prefix_u128_max_then_byte");
-        cov!(s, n == 40 && e.is_none(), "C12.cover.prefix_u128_tail_digit_overflows");
         cov!(s, n == 39 && e.is_none(), "C12.cover.prefix_u128_overflow");
         cov!(s, n == 0, "C12.cover.prefix_u128_minus_rejected");
     }
 }
 
 harness! {
-    /// kind=bounded tier=quick bound="i128 prefix parsing: sign none or '-', the first 36 digits of i128::MAX, 3 symbolic digits, then one symbolic ASCII byte"
+    /// kind=bounded tier=quick bound="i128 prefix parsing: sign none or '-', the first 36 digits of i128::MAX, 3 symbolic digits, then one symbolic non-digit ASCII byte"
     #[kani::unwind(45)]
     #[kani::stub(konst_kernel::string::non_char_boundary_panic, crate::hlib::stub_non_char_boundary_panic)]
     fn c12_prefix_near_i128(s) {
         let (n, e) = near_prefix::<i128, 43, _>(s, b"170141183460469231731687303715884105727", 3);
         cov!(s, n == 39 && e == Some(i128::MAX), "C12.cover.prefix_i128_max_then_byte");
-        cov!(s, n == 40 && e.is_none(), "C12.cover.prefix_i128_tail_digit_overflows");
         cov!(s, n == 39 && e.is_none(), "C12.cover.prefix_i128_overflow");
         cov!(s, n == 40 && e == Some(i128::MIN), "C12.cover.prefix_i128_min_then_byte");
         cov!(s, n == 40 && e.is_none(), "C12.cover.prefix_i128_below_min");
@@ -721,26 +727,24 @@ harness! {
 }
 
 harness! {
-    /// kind=bounded tier=quick bound="usize prefix parsing: sign none or '-', the first 17 digits of usize::MAX, 3 symbolic digits, then one symbolic ASCII byte"
+    /// kind=bounded tier=quick bound="usize prefix parsing: sign none or '-', the first 17 digits of usize::MAX, 3 symbolic digits, then one symbolic non-digit ASCII byte"
     #[kani::unwind(26)]
     #[kani::stub(konst_kernel::string::non_char_boundary_panic, crate::hlib::stub_non_char_boundary_panic)]
     fn c12_prefix_near_usize(s) {
         let (n, e) = near_prefix::<usize, 24, _>(s, b"18446744073709551615", 3);
         cov!(s, n == 20 && e == Some(usize::MAX), "C12.cover.prefix_usize_max_then_byte");
-        cov!(s, n == 21 && e.is_none(), "C12.cover.prefix_usize_tail_digit_overflows");
         cov!(s, n == 20 && e.is_none(), "C12.cover.prefix_usize_overflow");
         cov!(s, n == 0, "C12.cover.prefix_usize_minus_rejected");
     }
 }
 
 harness! {
-    /// kind=bounded tier=quick bound="isize prefix parsing: sign none or '-', the first 16 digits of isize::MAX, 3 symbolic digits, then one symbolic ASCII byte"
+    /// kind=bounded tier=quick bound="isize prefix parsing: sign none or '-', the first 16 digits of isize::MAX, 3 symbolic digits, then one symbolic non-digit ASCII byte"
     #[kani::unwind(25)]
     #[kani::stub(konst_kernel::string::non_char_boundary_panic, crate::hlib::stub_non_char_boundary_panic)]
     fn c12_prefix_near_isize(s) {
         let (n, e) = near_prefix::<isize, 23, _>(s, b"9223372036854775807", 3);
         cov!(s, n == 19 && e == Some(isize::MAX), "C12.cover.prefix_isize_max_then_byte");
-        cov!(s, n == 20 && e.is_none(), "C12.cover.prefix_isize_tail_digit_overflows");
         cov!(s, n == 19 && e.is_none(), "C12.cover.prefix_isize_overflow");
         cov!(s, n == 20 && e == Some(isize::MIN), "C12.cover.prefix_isize_min_then_byte");
         cov!(s, n == 20 && e.is_none(), "C12.cover.prefix_isize_below_min");
